@@ -2,6 +2,7 @@ import TinsModel.Crypto.Wpa2
 import TinsModel.Crypto.Spec
 import TinsModel.Crypto.LemmasWep
 import TinsModel.Crypto.LemmasSafety
+import TinsModel.Crypto.LemmasTkip
 /-
   Property C09 — WEP / TKIP / CCMP decryption recovers exactly the plaintext, safely.
   Theorems only (helper lemmas live in TinsModel/Crypto/Lemmas*.lean).
@@ -218,6 +219,126 @@ theorem ccmp_reject (ip : InnerParser) (aes : Bytes → BlockFn) (keys : KeyTabl
           unfold ccmpDecrypt; simp [hmin, show pload.length ≤ 16 by omega]
         rw [this] at h
         simp at h
+
+/-! ## TKIP -/
+
+/-- **S-box.** The two 256-entry tables of src/crypto.cpp (regenerated from the source on every run) are the TKIP S-box
+    of IEEE 802.11: entry `i` is `(2·s)‖(3·s)` in GF(2^8) for `s` the AES S-box of `i`; the second table is the first
+    with the bytes of every entry swapped. (The finite table is the quantifier.) -/
+theorem tkip_sbox_is_standard : ∀ n : Fin 256,
+    Gen.sboxTable0.getD n.val 0 = Spec.tkipSboxLo (UInt8.ofNat n.val) ∧
+    Gen.sboxTable1.getD n.val 0 = Spec.swap16 (Spec.tkipSboxLo (UInt8.ofNat n.val)) := sboxTables_spec
+
+/-- **Key mixing.** For every temporal key, transmitter address and TSC bytes, the RC4 key computed by
+    `RC4Key::from_packet` is the WEP seed of TKIP phase 1 + phase 2 of IEEE 802.11 for the TSC carried in the header. -/
+theorem tkip_mixing_is_ieee (ptk : Bytes) (h : Hdr) (pload : Bytes) (hn : 8 ≤ pload.length) :
+    tkipSeed ptk h pload = .ok (Spec.tkipSeed (ptk.drop 32) h.addr2 (Spec.tkipTscOf pload)) :=
+  tkipSeed_eq_spec ptk h pload hn
+
+/-- **Refinement.** For every body longer than 20 bytes `tkip_decrypt_unicast` returns the LLC/SNAP parse of the data
+    part of the specification's TKIP decapsulation: null exactly when the ICV does not verify or the plaintext is not
+    a well-formed LLC/SNAP payload. -/
+theorem tkip_refines_spec (ip : InnerParser) (ptk : Bytes) (h : Hdr) (pload : Bytes) (hn : 20 < pload.length) :
+    ∃ p', tkipDecrypt ip ptk h pload =
+      .ok (snapResult ip ((Spec.tkipDecap (ptk.drop 32) h.addr2 pload).map (·.1)), p') :=
+  tkipDecrypt_refines ip ptk h pload hn
+
+/-- **Round trip (specification level)**: every temporal key, TA, 48-bit TSC, key-id byte, data, Michael value. -/
+theorem tkip_spec_roundtrip (tk ta : Bytes) (tsc : Nat) (htsc : tsc < 2 ^ 48) (kid : UInt8) (m mic : Bytes)
+    (hmic : mic.length = 8) : Spec.tkipDecap tk ta (Spec.tkipEncap tk ta tsc kid m mic) = some (m, mic) :=
+  spec_tkip_roundtrip tk ta tsc htsc kid m mic hmic
+
+/-- **Round trip.** Every protected header, every 48-bit TSC, key-id byte, LLC/SNAP payload `m` (parsing to `s`) and
+    8-byte Michael value: the frame carrying the reference TKIP encapsulation under the temporal key of the session keys
+    found by the key lookup is reported as decrypted, gets exactly `s` as payload and is marked unprotected. -/
+theorem tkip_roundtrip (ip : InnerParser) (aes : Bytes → BlockFn) (keys : KeyTable) (k : SessionKeys) (h : Hdr)
+    (hw : h.wep = true) (hk : findKeys keys h = some k) (hc : k.isCcmp = false)
+    (tsc : Nat) (htsc : tsc < 2 ^ 48) (kid : UInt8) (m mic : Bytes) (hmic : mic.length = 8) (s : Snap)
+    (hs : snapParse ip m = .ok s) :
+    wpa2DecryptData ip aes keys ⟨h, .raw (Spec.tkipEncap (k.ptk.drop 32) h.addr2 tsc kid m mic)⟩ =
+      .ok (true, ⟨h.clearWep, .snap s⟩) ∧ h.clearWep.wep = false := by
+  refine ⟨?_, clearWep_wep h⟩
+  have hlen : 20 < (Spec.tkipEncap (k.ptk.drop 32) h.addr2 tsc kid m mic).length := by
+    have hm : 8 ≤ m.length := by
+      unfold snapParse at hs
+      split at hs
+      · simp
+      · cases hs
+    unfold Spec.tkipEncap
+    have : (Spec.tkipHeader tsc kid).length = 8 := rfl
+    simp [this, hmic]
+    omega
+  obtain ⟨p', hd⟩ := tkipDecrypt_refines ip k.ptk h _ hlen
+  rw [spec_tkip_roundtrip _ _ tsc htsc kid m mic hmic] at hd
+  unfold wpa2DecryptData
+  simp only [Inner.findRaw, hw, hk, Bool.not_true, Bool.false_eq_true, if_false]
+  unfold decryptUnicast
+  simp only [hc, Bool.false_eq_true, if_false]
+  rw [hd]
+  simp [snapResult, hs]
+
+/-- **Reject (TKIP), full statement**: a frame reported as decrypted has a verifying ICV *and* a verifying Michael
+    MIC.  FALSE of libtins (known finding KF-C09-4): `tkip_decrypt_unicast` never checks Michael. -/
+def tkip_reject_full : Prop :=
+  ∀ (ip : InnerParser) (ptk : Bytes) (h : Hdr) (pload : Bytes) (s : Snap) (p' : Bytes),
+    tkipDecrypt ip ptk h pload = .ok (some s, p') →
+    ∃ m mic, Spec.tkipDecap (ptk.drop 32) h.addr2 pload = some (m, mic) ∧ snapParse ip m = .ok s ∧
+      Spec.michaelVerifies ptk h.bytes m mic = true
+
+/-- refutation on a concrete witness (replayed on the real code by the check on every run): a to-DS frame whose
+    Michael field is eight zero bytes -/
+theorem tkip_reject_full_fails : ¬ tkip_reject_full := by
+  intro hfull
+  let ip : InnerParser := fun _ r => .ok (.raw r)
+  let ptk : Bytes := List.replicate 80 7
+  let h : Hdr := { fc0 := 0x08, fc1 := 0x41, addr1 := [1, 1, 1, 1, 1, 1], addr2 := [2, 2, 2, 2, 2, 2],
+                   addr3 := [3, 3, 3, 3, 3, 3], sc0 := 0, sc1 := 0 }
+  let m : Bytes := [0xaa, 0xaa, 3, 0, 0, 0, 0x88, 0xb5, 1, 2, 3, 4]
+  let mic : Bytes := [0, 0, 0, 0, 0, 0, 0, 0]
+  let pload := Spec.tkipEncap (ptk.drop 32) h.addr2 5 0x20 m mic
+  have hlen : 20 < pload.length := by
+    show 20 < (Spec.tkipEncap (ptk.drop 32) h.addr2 5 0x20 m mic).length
+    unfold Spec.tkipEncap
+    have : (Spec.tkipHeader 5 0x20).length = 8 := rfl
+    simp [this]
+    decide
+  obtain ⟨p', hd⟩ := tkipDecrypt_refines ip ptk h pload hlen
+  have hrt : Spec.tkipDecap (ptk.drop 32) h.addr2 pload = some (m, mic) :=
+    spec_tkip_roundtrip _ _ 5 (by decide) 0x20 m mic rfl
+  rw [hrt] at hd
+  have hs : snapParse ip m = .ok ⟨0xaa, 0xaa, 3, 0, 0x88b5, .raw [1, 2, 3, 4]⟩ := rfl
+  simp only [Option.map_some, snapResult, hs] at hd
+  obtain ⟨m', mic', hdec, _, hmv⟩ := hfull ip ptk h pload _ p' hd
+  rw [hrt] at hdec
+  cases hdec
+  have : Spec.michaelVerifies ptk h.bytes m mic = false := by decide
+  rw [this] at hmv
+  cases hmv
+
+/-- **Reject (TKIP), what holds**: a frame reported as decrypted has a verifying ICV under the session's temporal key
+    and per-packet key mixing, and the new payload is the parse of exactly the decapsulated data.
+    Excluded from the full statement: the Michael MIC (`Spec.michaelVerifies`). -/
+theorem tkip_reject_partial (ip : InnerParser) (ptk : Bytes) (h : Hdr) (pload : Bytes) (s : Snap) (p' : Bytes)
+    (hd : tkipDecrypt ip ptk h pload = .ok (some s, p')) :
+    ∃ m mic, Spec.tkipDecap (ptk.drop 32) h.addr2 pload = some (m, mic) ∧ snapParse ip m = .ok s := by
+  have hmin : Gen.tkipMin = 20 := rfl
+  by_cases hn : 20 < pload.length
+  · obtain ⟨p'', hr⟩ := tkipDecrypt_refines ip ptk h pload hn
+    rw [hr] at hd
+    cases hdec : Spec.tkipDecap (ptk.drop 32) h.addr2 pload with
+    | none => simp [hdec, snapResult] at hd
+    | some mm =>
+      obtain ⟨m, mic⟩ := mm
+      cases hs : snapParse ip m with
+      | ok s' =>
+        simp [hdec, snapResult, hs] at hd
+        exact ⟨m, mic, rfl, by rw [hs, hd.1]⟩
+      | throw e => simp [hdec, snapResult, hs] at hd
+      | fault a b c => simp [hdec, snapResult, hs] at hd
+  · have : tkipDecrypt ip ptk h pload = .ok (none, pload) := by
+      unfold tkipDecrypt; simp [hmin, show pload.length ≤ 20 by omega]
+    rw [this] at hd
+    simp at hd
 
 /-! ## Safety and key lookup of the WPA2 data path -/
 
